@@ -10,7 +10,25 @@ def clause(v, rec):
     return None
 
 
+def design(ctx):
+    """design model of fickling's symbolic interpreter: FickVM refines PickleVM under the C09 projection"""
+    import os
+    from .. import tlc
+    from ..tlc import MachineryError
+    t = open(os.path.join(tlc.SPEC, "FickGen.cfg.tmpl")).read()
+    n = 4 if ctx.quick else 5
+    r = tlc.run("MCF_all", t.replace("@PINNED@", "FALSE").replace("@MAXLEN@", str(n)), workers=16, timeout=1800, heap="10g")
+    ctx.add_tlc(f"design:FickVM-refines-PickleVM:len{n}", r)
+    if not r["ok"]:
+        ctx.drift.append("design model FickVM does not refine PickleVM under Proj: " + r["error"][:300].replace("\n", " "))
+    rn = tlc.run("MCF_all", t.replace("@PINNED@", "TRUE").replace("@MAXLEN@", "4"), workers=8, timeout=900)
+    if rn["ok"]:
+        raise MachineryError("negative design model (ADDITEMS pops the set) was not refuted by the refinement check")
+    ctx.notes.append("negative design model (pinned ADDITEMS) refuted by TLC as expected")
+
+
 def run(ctx):
+    design(ctx)
     return vmfamily.run_family(
         ctx, "C09", clause,
         nontrivial=lambda v, r: len(r["fick"]["steps"]) >= 3,
